@@ -49,7 +49,7 @@ type poolObs struct {
 	Length  int
 	Resp    string
 	Req     string
-	Accept string // what AcceptedTypes() says: "own" = the types of THIS request's Accept header
+	Accept  string // what AcceptedTypes() says: "own" = the types of THIS request's Accept header
 	// mutation "nested": what the handler finds in its context after it served another request on the same router
 	AfterNested string
 }
